@@ -291,6 +291,15 @@ def check(prop, tier, only=None):
         for o in obs:
             if o["harness"] not in _IR.funcs:
                 status["inconclusive"].append("harness %s not found in IR" % o["harness"])
+        pre = getattr(spec, "PRECHECK", None)
+        if pre is not None:
+            srcs = ""
+            for d, _, files in os.walk(HARNESS):
+                for f in files:
+                    if f.endswith(".go"):
+                        srcs += open(os.path.join(d, f)).read()
+            for pb in pre(_IR, srcs):
+                status["inconclusive"].append("precheck: " + pb)
         if status["inconclusive"]:
             return finish(prop, tier, seed, spec, [], status, t_start, {}, evidence_path)
         time_limit = getattr(spec, "TIME_LIMIT_S", {}).get(tier, 420 if tier == "quick" else 3600)
